@@ -458,6 +458,13 @@ func (b *baseScreen) ChannelEvents(ch chan<- Event, quit <-chan struct{}) {
 }
 
 func (b *baseScreen) PollEvent() Event {
+	// A finished screen answers nil, also when events are still queued:
+	// select would pick one of two ready cases at random.
+	select {
+	case <-b.StopQ():
+		return nil
+	default:
+	}
 	select {
 	case <-b.StopQ():
 		return nil
